@@ -5,7 +5,7 @@
     ordering check of topological_sort.
 (b) expressions: recursive grammar over every supported and unsupported construct, raw text,
     deep nesting; oracle = "returns or raises ExpressionError", context unchanged, sentinel
-    callable never invoked, plus a truthiness differential against Python's own eval on the
+    callable never invoked; a truthiness differential against Python's own eval on the
     sub-language where both are defined.
 (c) atheris byte-level campaign on (b)'s totality oracle (sub-process; skipped if atheris
     is not importable, and said so in the evidence).
@@ -192,7 +192,10 @@ def expr_strategy(max_leaves: int = 12):
     edge_index = st.builds(lambda base, k: f"{base}[{k}]",
                            st.sampled_from(["lst", "x", "y", "s", "d", "nested['k']", "nested['a']['b']['k']", "[1, 2]", "(1, 2)", "[]", "'ab'", "lst[0]"]),
                            st.one_of(st.integers(-7, 7).map(repr), st.sampled_from(["'a'", "'zz'", "None", "True", "1.0", "-1.0", "n", "-n", "x"])))
-    atom = st.one_of(_const(), _name(), _name(), edge_index)
+    # membership tests against bytes / str / sequences with operands of the wrong kind or range
+    edge_member = st.builds(lambda k, op, box: f"({k}) {op} ({box})", st.one_of(st.sampled_from(["-3", "300", "256", "255", "1.5", "None", "'a'", "b'x'", "x", "n"])),
+                            st.sampled_from(["in", "not in"]), st.sampled_from(["b'x'", "'abc'", "lst", "d", "x", "(1, 2)", "n", "None"]))
+    atom = st.one_of(_const(), _name(), _name(), edge_index, edge_member)
 
     def extend(e):
         attr = st.sampled_from(["a", "b", "k", "__class__", "__dict__", "keys", "x", "append"])
@@ -440,7 +443,9 @@ def shard_exprs(prop: str, tier: str, seed: int, n: int) -> dict[str, Any]:
         else:
             cls.append("expr:diff-compared")
             if d:
-                c.violation(d[0], {"kind": "expr-diff", "expr": expr, "ctx": ctx}, d[1])
+                # counted, not judged: C20 promises "returns a value or raises the evaluator's own error", not Python's value
+                # (the evaluator's and / or return booleans - all() / any() - so e.g. (3 and 3) != 1 differs from Python)
+                cls.append("expr:diff-differs-from-python")
         w = caller_case(expr, ctx)
         if w:
             c.violation(w[0], {"kind": "caller", "expr": expr, "ctx": ctx}, w[1])
@@ -595,7 +600,7 @@ def run(c: Campaign, jobs: int) -> None:
               "expression that parses with >=3 AST nodes. Distinct = canonical hash of the structured case.")
     c.assumptions += [
         "contexts are JSON-representable values plus one callable sentinel (stage.context is loaded from JSON in the engine)",
-        "truthiness differential only where Python's eval and the evaluator both return (eager and/or evaluation may raise ExpressionError)",
+        "the truthiness differential against Python's eval is counted (class expr:diff-differs-from-python), not judged: the statement does not promise Python's values",
         "atheris counts come from libFuzzer's 'Done N runs' line; its campaign is only approximately reproducible from the seed",
     ]
     for cls in ("graph:valid", "graph:invalid-dup", "graph:invalid-self", "graph:invalid-unknown", "graph:invalid-cycle",
